@@ -171,6 +171,7 @@ def run(ctx):
             groups["good"].append((t, l, v))
     probes = {}
     emitted_rc = {}
+    ub_diffs = {}
     pd = os.path.join(work, "probe")
     os.makedirs(pd, exist_ok=True)
 
@@ -190,6 +191,30 @@ def run(ctx):
               "rust": scrape.idlc_run(ctx["idlc"], os.path.join(d, "k.idl"), os.path.join(d, "rs"), "rust")[0],
               "java": scrape.idlc_run(ctx["idlc"], os.path.join(d, "kj.idl"), os.path.join(d, "java"), "java", False)[0]}
         emitted_rc[tag] = em
+        # every constant of a probe group is in range: --allow-undefined-behavior only switches the range
+        # check off, so the same files must come out with it
+        ubd = os.path.join(d, "ub")
+        os.makedirs(os.path.join(ubd, "rs"), exist_ok=True)
+        os.makedirs(os.path.join(ubd, "java"), exist_ok=True)
+        ubx = ["--allow-undefined-behavior"]
+        ub = {"c": scrape.idlc_run(ctx["idlc"], os.path.join(d, "k.idl"), os.path.join(ubd, "k.h"), extra=ubx)[0],
+              "cpp": scrape.idlc_run(ctx["idlc"], os.path.join(d, "k.idl"), os.path.join(ubd, "k.hpp"), "cpp", extra=ubx)[0],
+              "rust": scrape.idlc_run(ctx["idlc"], os.path.join(d, "k.idl"), os.path.join(ubd, "rs"), "rust", extra=ubx)[0],
+              "java": scrape.idlc_run(ctx["idlc"], os.path.join(d, "kj.idl"), os.path.join(ubd, "java"), "java", False, extra=ubx)[0]}
+        diffs = []
+        for lang_, rel_ in (("c", "k.h"), ("cpp", "k.hpp"), ("rust", "rs"), ("java", "java")):
+            if em[lang_] != ub[lang_]:
+                diffs.append("%s: exit status %s without the flag, %s with it" % (lang_, em[lang_], ub[lang_]))
+                continue
+            a_, b_ = os.path.join(d, rel_), os.path.join(ubd, rel_)
+            pairs_ = [(a_, b_)] if os.path.isfile(a_) else [(os.path.join(a_, fn), os.path.join(b_, fn)) for fn in sorted(os.listdir(a_))]
+            for x_, y_ in pairs_:
+                if scrape.rd(x_) != scrape.rd(y_):
+                    la, lb = scrape.rd(x_).split("\n"), scrape.rd(y_).split("\n")
+                    first = next(((p_, q_) for p_, q_ in zip(la, lb) if p_ != q_), ("", ""))
+                    diffs.append("%s: %s differs: `%s` vs `%s`" % (lang_, os.path.basename(x_), first[0][:120], first[1][:120]))
+                    break
+        ub_diffs[tag] = diffs
         if "c" in langs:
             r = scrape.idlc_run(ctx["idlc"], os.path.join(d, "k.idl"), os.path.join(d, "k.h"))
             src = '#include <stdio.h>\n#include <inttypes.h>\n#include "k.h"\nint main(void){\n'
@@ -307,6 +332,11 @@ def run(ctx):
     with ThreadPoolExecutor(max_workers=8) as ex:
         probes = dict(ex.map(lambda j: build(*j), jobs))
     nprobe = 0
+    for tag, diffs in sorted(ub_diffs.items()):
+        for dd in diffs[:3]:
+            consts_ = [j for j in jobs if j[0] == tag][0][1]
+            res["failures"].append({"property": prop, "group": tag, "idl": "".join("const %s K%d = %s;\n" % (t, i, l) for i, (t, l, v) in enumerate(consts_))[:4000],
+                                    "what": "in-range constants come out differently with --allow-undefined-behavior: %s" % dd})
     # ---- the emitted text against the emitter model (ConstEmit.v): every constant of every job
     def esc(x):
         return x.replace('"', '""')
